@@ -21,7 +21,6 @@ import (
 
 func main() { harness.Main("C04", "model_checking", run) }
 
-const firstData = 3 // objects 1 (catalog) and 2 (pages) are fixed
 
 type op struct {
 	kind string // get | resolve | deep | rdeep | clear
@@ -37,7 +36,7 @@ func (o op) String() string {
 
 func run(e *harness.Env) {
 	e.Rule = "revision histories: per revision and data object one of {untouched, set fresh value, delete}, xref kind per revision {table, stream}, " +
-		"object-stream membership per set object in stream revisions, reuse of the previous object-stream number; quick: n=2 objects, r<=2 full product + r=3 with <=3 deviations; " +
+		"object-stream membership per set object in stream revisions, reuse of the previous object-stream number, numbering {data objects above / below catalog+pages}, object 0 {untouched, rewritten} in updates that free; quick: n=2 objects, r<=2 full product + n=2,r=3 and n=3,r=2 with <=4 deviations from the plain history; " +
 		"thorough: n=2,r=3 full product and n=3,r<=2 full product. For every history: BFS over reader cache states, ops {GetObject(k) incl. undefined k, Resolve(ref), " +
 		"Reader.ResolveDeep(all refs), resolver.ResolveDeep(all refs), ClearCache}; a state = (set of numbers looked up since the last clear, CacheSize, ObjectStreamCacheSize). " +
 		"non-trivial = history with at least one non-default choice"
@@ -55,25 +54,31 @@ func run(e *harness.Env) {
 	if e.Thorough() {
 		cfgs = []cfg{{"n2r1", 2, 1, -1}, {"n2r2", 2, 2, -1}, {"n2r3", 2, 3, -1}, {"n3r2", 3, 2, -1}, {"n3r3", 3, 3, 3}}
 	} else {
-		cfgs = []cfg{{"n2r1", 2, 1, -1}, {"n2r2", 2, 2, -1}, {"n2r3", 2, 3, 3}, {"n3r2", 3, 2, 2}}
+		cfgs = []cfg{{"n2r1", 2, 1, -1}, {"n2r2", 2, 2, -1}, {"n2r3", 2, 3, 4}, {"n3r2", 3, 2, 4}}
 	}
 	for _, cf := range cfgs {
 		cf := cf
 		e.Explore("hist="+cf.name, cf.bound, func(c *harness.Ctx) {
 			n, r := cf.n, cf.r
+			// numbering: "high" = catalog 1, pages 2, data objects from 3; "low" = data objects 1..n (so that
+			// sections can begin at object 1 and the lowest numbers are added/replaced/freed), catalog and pages after them
+			firstData, catNum, pagesNum := 3, 1, 2
+			if c.PickS("numbering", "high", "low") == "low" {
+				firstData, catNum, pagesNum = 1, n+1, n+2
+			}
 			model := map[int]string{} // live objects -> serialized value
 			defined := map[int]bool{} // has any entry (live or free)
 			var revs []pdfw.Revision
-			next := firstData + n + 1 // numbers for xref streams / object streams
-			undefinedNum := firstData + n + 40
+			next := n + 3 // numbers for xref streams / object streams
+			undefinedNum := n + 43
 			lastObjStm := 0
 			inStm := map[int]bool{} // numbers whose newest definition lives in object stream lastObjStm
 			for ri := 0; ri < r; ri++ {
 				rev := pdfw.Revision{XRef: c.PickS(fmt.Sprintf("x%d", ri), "table", "stream")}
 				if ri == 0 {
 					rev.Objs = append(rev.Objs,
-						pdfw.Obj{Num: 1, Body: "<< /Type /Catalog /Pages 2 0 R >>"},
-						pdfw.Obj{Num: 2, Body: "<< /Type /Pages /Kids [] /Count 0 >>"})
+						pdfw.Obj{Num: catNum, Body: fmt.Sprintf("<< /Type /Catalog /Pages %d 0 R >>", pagesNum)},
+						pdfw.Obj{Num: pagesNum, Body: "<< /Type /Pages /Kids [] /Count 0 >>"})
 				}
 				packedAny := false
 				touched := map[int]bool{}
@@ -94,7 +99,7 @@ func run(e *harness.Env) {
 					case "set":
 						val := fmt.Sprintf("(v%d-%d)", ri, num)
 						if (ri+k)%2 == 1 {
-							val = fmt.Sprintf("<< /Rev %d /Num %d /Cat 1 0 R >>", ri, num)
+							val = fmt.Sprintf("<< /Rev %d /Num %d /Cat %d 0 R >>", ri, num, catNum)
 						}
 						o := pdfw.Obj{Num: num, Body: val}
 						if rev.XRef == "stream" {
@@ -153,6 +158,10 @@ func run(e *harness.Env) {
 						delete(inStm, num)
 					}
 				}
+				if ri > 0 && len(rev.Free) > 0 {
+					// a writer that maintains the free list rewrites object 0 when it frees an object; many do not
+					rev.RewriteZero = c.PickS(fmt.Sprintf("zero%d", ri), "untouched", "rewritten") == "rewritten"
+				}
 				if len(rev.Objs) == 0 && len(rev.Free) == 0 {
 					rev.Objs = append(rev.Objs, pdfw.Obj{Num: next, Body: "(pad)"})
 					next++
@@ -163,7 +172,7 @@ func run(e *harness.Env) {
 				return
 			}
 			e.Begin(c.Desc())
-			built := pdfw.Build(pdfw.File{Root: 1, Revs: revs, EOL: "\n"})
+			built := pdfw.Build(pdfw.File{Root: catNum, Revs: revs, EOL: "\n"})
 			if err := os.WriteFile(path, built.Bytes, 0o644); err != nil {
 				panic(err)
 			}
